@@ -243,28 +243,37 @@ def valid_schema(rng, sysr):
     return text, root, rv or vers[0]
 
 
-def graph_text(rng):
+def graph_text(rng, noise=None):
     """a resolved-graph text in the syntax of schema.ParseResolve: every row kind (node, labelled node, reference to a
     label, error with and without a concrete version, free error, comment) at every depth the validation admits - a row
-    may sit one level below ANY kind of row, so rows that create no node nest below each other"""
+    may sit one level below ANY kind of row, so rows that create no node nest below each other.  Without noise the text
+    is accepted (one malformed row rejects the whole text, so the noisy stream is a separate, smaller one)."""
+    if noise is None:
+        noise = rng.random() < 0.25
     names = [b"a", b"b", b"c", b"@s/d", b"e"]
     vers = [b"1", b"1.0.0", b"2.0.0", b"1.0"]
     reqs = [b"*", b"^1", b"1", b">=1", b""]
-    dts = [b"", b"", b"", b"dev|", b"opt|", b"Scope peer|", b"bogus|", b"|"]
+    dts = [b"", b"", b"", b"dev|", b"opt|", b"Scope peer|"] + ([b"bogus|", b"|"] if noise else [])
     labels = []
     rows = [rng.choice([b"", b"r: "]) + rng.choice(names) + b" " + rng.choice(vers)]
     if rows[0].startswith(b"r: "):
         labels.append(b"r")
     depth = 0
+    shape = rng.choice(["deep", "deep", "mixed", "flat"])
     for _ in range(rng.randrange(1, 16)):
-        # mostly one deeper or level: deep chains of every row kind; rarely a skipped level (rejected by the validation)
-        depth = max(1, rng.choice([depth + 1, depth + 1, depth + 1, depth, depth, depth - 1, 1]))
-        if rng.random() < 0.03:
+        # mostly one deeper or level: deep chains of every row kind; with noise rarely a skipped level (rejected)
+        if shape == "deep":
+            depth = max(1, rng.choice([depth + 1, depth + 1, depth + 1, depth + 1, depth, depth - 1]))
+        elif shape == "mixed":
+            depth = max(1, rng.choice([depth + 1, depth + 1, depth, depth, depth - 1, 1]))
+        else:
+            depth = max(1, rng.choice([depth + 1, depth, depth, 1, 1]))
+        if noise and rng.random() < 0.05:
             depth += 1
         ind = b"\t" * depth
         k = rng.random()
         nm, rq = rng.choice(names), rng.choice(reqs)
-        if k < 0.35:
+        if k < 0.35 or (k < 0.6 and not labels and not noise):
             lab = b""
             if rng.random() < 0.4:
                 l = rng.choice([b"x", b"y", b"z", b"1"])
@@ -272,16 +281,17 @@ def graph_text(rng):
                 lab = l + b": "
             rows.append(ind + lab + rng.choice(dts) + nm + b"@" + rq + b" " + rng.choice(vers))
         elif k < 0.6:
-            l = rng.choice(labels) if labels and rng.random() < 0.9 else rng.choice([b"x", b"nolabel"])
+            l = rng.choice(labels) if labels and (not noise or rng.random() < 0.9) else rng.choice([b"x", b"nolabel"])
             rows.append(ind + rng.choice(dts) + b"$" + l + b"@" + rq)
         elif k < 0.8:
-            rows.append(ind + nm + b"@" + rq + b" ERROR: " + rng.choice([b"e", b"could not find", b""]))
+            rows.append(ind + nm + b"@" + rq + b" ERROR: " + rng.choice([b"e", b"could not find", b"x y z"]))
         elif k < 0.88:
             rows.append(ind + nm + b"@" + rq + b" " + rng.choice(vers) + b" ERROR: e")
-        elif k < 0.93:
+        elif k < 0.93 or not noise:
             rows.append(rng.choice([b"ERROR: top", b"# comment", b"", ind + b"# c"]))
         else:
-            rows.append(ind + rng.choice([b"$", b"$@", b"@", nm, nm + b"@" + rq + b" 1 2", b"x: ", b"$x", b"\xe2\x94\x94\xe2\x94\x80 " + nm + b"@" + rq + b" 1"]))
+            rows.append(ind + rng.choice([b"$", b"$@", b"@", nm, nm + b"@" + rq + b" 1 2", b"x: ", b"$x", nm + b"@" + rq + b" ERROR: ",
+                                          b"\xe2\x94\x94\xe2\x94\x80 " + nm + b"@" + rq + b" 1"]))
     return b"\n".join(rows) + rng.choice([b"\n", b""])
 
 
